@@ -31,6 +31,8 @@ tie:   2-5 real callers of functions protected by `thunder_protection` - bare, a
        Further: STACKS of two protected decorators with coarser / equal / finer outer key templates; bodies that RETURN
        error-like objects (an Exception instance, a BaseException instance, a wrapper) which every waiter must receive as
        a value; a stage with two event loops one after the other ("D70:stale-loop-entry" without its repair).
+       Callers may carry a CONTROL STATE ("ctl": single commands - get / set / both - disabled in the caller's context, a
+       partial disable): they must still share executions with everybody else; those cases are judged by the oracle only.
        After every scheduler step the observable state (what each caller has received, bodies
        running / started per key, the clock) is compared with
          (a) the Lean model replaying the recorded trace (driver_c07), and
@@ -228,6 +230,11 @@ def oracle(case, run):
     early = sfimpl.EARLY[case["variant"]]
     foreground = sfimpl.FOREGROUND[case["variant"]]
     spawned_by = {int(c_): int(p_) for c_, p_ in (case.get("spawned") or {}).items()}
+    # per-caller control state: single commands disabled in the caller's context (1: get, 2: set, 3: both).  The invariant:
+    # while the cache is not FULLY disabled, overlapping equal-key calls share one execution whatever single commands are
+    # disabled for any of them.  What the disabled commands do change is the cache decorator inside an execution such a
+    # caller STARTS (its context is copied): get disabled - the lookup finds nothing; set disabled - the result is not stored
+    ctl = {int(c_): int(m_) for c_, m_ in (case.get("ctl") or {}).items()} if caching else {}
     ettl = sfimpl.early_ticks(case)      # early deadline of a stored value / lifetime of the lock key (early only)
     now = 0             # ticks; moved by the schedule's time steps only
     viol = []
@@ -301,7 +308,12 @@ def oracle(case, run):
                         and not inflight[k]["ended"]:
                     hit("spawned_task_joins_a_later_execution_of_its_parents_key" if pr["key"] == k else
                         "spawned_task_joins_an_execution_of_another_key")
+            get_off = bool(ctl.get(c, 0) & 1)
+            if ctl.get(c, 0):
+                hit("call_with_single_commands_disabled")
             r = inflight.get(k)
+            if r is not None and ctl.get(c, 0) and not r["ended"]:
+                hit("caller_with_disabled_commands_joins_the_execution_in_flight")
             if r is not None:
                 # no ttl carve-out: an execution in flight is joined however old it is
                 expected[c] = r
@@ -319,6 +331,12 @@ def oracle(case, run):
                     hit("join_before_body_started")
                 if r.get("awaits") and not r["ended"]:
                     hit("join_execution_that_awaits_a_recalculation")
+            elif get_off and not (early and refresh.get(k) is not None):
+                # nothing in flight, `get` disabled for the caller: the execution it starts does not see what is stored
+                if k in cache_val and now < cache_val[k][2]:
+                    hit("get_disabled_execution_runs_despite_stored_value")
+                _, _, n, kind, val = script[c][:5]
+                new_rec(c, k, code_of(kind, val, c), False, arg)
             elif caching and k in cache_val and now < cache_val[k][2] and (not early or now <= cache_val[k][1]):
                 new_rec(c, k, code_of("r", cache_val[k][0], c), True, arg)
                 hit("cache_hit")
@@ -451,7 +469,8 @@ def oracle(case, run):
                 continue
             r = recs.get(x)
             if r is not None:
-                if gated and sfimpl.kept(case["variant"], kind, val) and how == "ok":
+                noset = bool(ctl.get(x, 0) & 2)
+                if gated and sfimpl.kept(case["variant"], kind, val) and how == "ok" and not noset:
                     r["body_done"] = True          # still in flight: the decorator has yet to store the result
                 else:
                     r["ended"] = True
@@ -486,7 +505,10 @@ def oracle(case, run):
                     # goes on) will differ and say so
                     hit("exec_cancelled_with_no_waiter_left")
             elif caching and sfimpl.kept(case["variant"], kind, val):
-                cache_val[k] = (stored_val(kind, val, x), now + ettl, now + ttl)
+                if ctl.get(x, 0) & 2:
+                    hit("set_disabled_result_not_stored")
+                else:
+                    cache_val[k] = (stored_val(kind, val, x), now + ettl, now + ttl)
         elif t == "stored":
             r = recs.get(ev[1])
             if r is not None:
@@ -569,7 +591,7 @@ def explicit(case, run):
     two = case["variant"] in sfimpl.TWO_PARAM
     ex = {"variant": case["variant"], "callers": [list(c) if two else list(c)[:5] for c in case["callers"]],
           "schedule": [[k, [list(e) for e in a]] if k == "go" else [k, a] for k, a in run.eff]}
-    for f in ("ttl", "early_ttl", "reuse", "spawned"):
+    for f in ("ttl", "early_ttl", "reuse", "spawned", "ctl"):
         if f in case:
             ex[f] = case[f]
     return ex
@@ -860,7 +882,11 @@ def gen_case(rng, variant):
     case = {"variant": variant, "callers": callers, "schedule": sched}
     if not variant.startswith("bare") and rng.random() < 0.3:
         case["reuse"] = [rng.randrange(3), rng.randrange(2)]      # the decorator object also decorates other functions
-    if m >= 3 and rng.random() < 0.25:
+    # (not on stack_finer: a get-disabled execution re-stores under ONE outer key, the two layers then hold different values)
+    if not variant.startswith("bare") and variant != "stack_finer" and not recalc and rng.random() < 0.2:
+        # one or two callers have single commands disabled in their context (1 get, 2 set, 3 both)
+        case["ctl"] = {str(c_): rng.choice([1, 1, 2, 3]) for c_ in rng.sample(range(1, m + 1), rng.choice([1, 2]))}
+    if m >= 3 and "ctl" not in case and rng.random() < 0.25:      # (a spawned task would inherit the disabled commands)
         # one or two callers are tasks spawned by the body of an earlier caller's script
         kids = rng.sample(range(2, m + 1), rng.choice([1, 1, 2]))
         case["spawned"] = {str(c_): rng.randrange(1, c_) for c_ in kids}
@@ -965,6 +991,12 @@ def sharing_programs(thorough: bool):
     # same call arguments under another template context / arguments that compare equal but render differently: other
     # key, other execution; the same (k, context / type): one execution
     progs.append(([[1, 1, 1, "r", 7, 0], [2, 1, 1, "e", 1, 1], [3, 1, 0, "r", 9, 0]], KEYED, {"cancel_budget": cb}))
+    # callers whose CONTEXT has single commands disabled (get / set / both - not the full disable) overlap with ordinary
+    # callers of the key: they join, and are joined, like anybody else; every facade variant
+    NG_FACADE = [v for v in FACADE if not sfimpl.GATED[v] and v != "stack_finer"]
+    three = [[1, 0, 1, "r", 7, 0], [2, 0, 1, "e", 3, 0], [3, 0, 0, "r", 9, 0]]
+    progs.append((three, NG_FACADE, {"ctl": {"2": 1, "3": 2}, "cancel_budget": 0}))
+    progs.append((three, NG_FACADE[0::3] if not thorough else NG_FACADE[0::2], {"ctl": {"1": 3, "3": 1}, "cancel_budget": cb}))
     # STACKS of two protected decorators with key templates of different granularity: callers that agree on k and differ in
     # the parameter only one of the layers has in its key share one body and one result, at every point of every interleaving
     progs.append(([[1, 0, 1, "r", 7, 0], [2, 0, 1, "e", 3, 1], [3, 0, 0, "r", 9, 2]], list(sfimpl.STACKS), {"cancel_budget": cb}))
@@ -1122,6 +1154,9 @@ def run(chk: Check) -> int:
                 samples.append({"variant": case["variant"], "callers": case["callers"],
                                 "trace": trace_table(case, r, ans), "final": r.final})
             diff = compare(case, r, ans)
+            if case.get("ctl"):
+                # per-caller disabled commands: judged by the property oracle only (the model's call has no control state)
+                diff = (None, "")
             if viol:
                 if found < 3:
                     # determinism: the same case must give the same run before it is reported
@@ -1186,7 +1221,7 @@ def run(chk: Check) -> int:
             def run_once(prefix, v=v, callers=callers, opts=opts):
                 case = {"variant": v, "callers": callers if v in sfimpl.TWO_PARAM else [c[:5] for c in callers],
                         "schedule": list(prefix)}
-                for f in ("ttl", "early_ttl", "reuse", "spawned"):
+                for f in ("ttl", "early_ttl", "reuse", "spawned", "ctl"):
                     if f in opts:
                         case[f] = opts[f]
                 last["r"] = feed(f"enum:{v}:{pi}", case, cancel_budget=opts.get("cancel_budget", 1),
